@@ -156,6 +156,10 @@ func readHeader(reader io.ReaderAt) (map[[2]byte]uint64, map[string]string, int6
 		if err != nil {
 			return nil, nil, 0, fmt.Errorf("failed to read numMeta: %w", err)
 		}
+		// every entry takes at least 8 bytes of the header: a larger count is corrupt (and must not size a map)
+		if numMeta > uint64(len(headerBuf))/8 {
+			return nil, nil, 0, fmt.Errorf("invalid numMeta: %d", numMeta)
+		}
 		meta := make(map[string]string, numMeta)
 		for i := uint64(0); i < numMeta; i++ {
 			key, err := decoder.ReadString()
@@ -175,6 +179,9 @@ func readHeader(reader io.ReaderAt) (map[[2]byte]uint64, map[string]string, int6
 		return nil, nil, 0, fmt.Errorf("failed to read numPrefixes: %w", err)
 	}
 	// prefix -> offset:
+	if numPrefixes > uint64(len(headerBuf))/10 {
+		return nil, nil, 0, fmt.Errorf("invalid numPrefixes: %d", numPrefixes)
+	}
 	prefixToOffset := make(map[[2]byte]uint64, numPrefixes)
 	for i := uint64(0); i < numPrefixes; i++ {
 		var prefix [2]byte
